@@ -215,7 +215,7 @@ def emit_c22(repo):
              "From Coq Require Import List String Bool.", "Import ListNotations.", "Open Scope string_scope.",
              "(* function, line, mutation site, root of the access path is a parameter *)",
              "Definition mutations : list (string * nat * string * bool) := ["]
-    lines.append(";\n".join(f"  ({coq_string(f)}, {ln}, {coq_string(w)}, {'true' if p else 'false'})" for f, ln, w, p in rows))
+    lines.append(";\n".join(f"  ({coq_string(f)}, {ln}%nat, {coq_string(w)}, {'true' if p else 'false'})" for f, ln, w, p in rows))
     lines.append("].")
     lines.append(f"Definition sum_aug : bool := {'true' if aug else 'false'}.")
     return "\n".join(lines) + "\n", rows, aug
